@@ -642,7 +642,81 @@ def r18_7(ctx: Ctx):
     ctx.floor(rid, 'metadata fields of shipped problem classes with resolved objects', n, 20)
 
 
+def r18_8(ctx: Ctx):
+    """Every valid member of a table-driven family is constructed as itself.  The constructor may normalise its
+    function number (reject or replace invalid ones), but for the first and the last row of the tables the attribute
+    that indexes the tables must come out as the requested number - otherwise row k of the published tables no longer
+    describes the instance built with number k."""
+    rid = 'R18.8'
+    ctx.rule(rid, 'member identity: for the boundary members 0 and NUM-1 of a table-driven family every feasible '
+                  'path of the constructor leaves the requested number in the attribute that indexes the tables')
+    base = ctx.ix.cls('Problem')
+    tabs = module_tables(ctx)
+    n = 0
+    for cls in shipped_problems(ctx):
+        init = cls.methods.get('__init__')
+        if init is None or len(init.param_names) < 2:
+            continue
+        pname = init.param_names[1]
+        pk = key_of(var(pname))
+
+        def inl(f, st) -> bool:
+            if f.name in ('__init__', 'Calculate'):
+                return False
+            return f.module is base.module or (f.cls is not None and f.cls.is_subclass_of(base)) or \
+                (f.cls is None and f.module is cls.module)
+        ex = ctx.explorer(unroll=1, max_paths=8000, inline=inl)
+        try:
+            paths = C.normal_paths(ex.explore(init))
+        except AnalysisError:
+            continue
+        selfk = key_of(var(init.param_names[0]))
+        # number of rows of the literal tables the constructor reads
+        rows = set()
+        for p in paths:
+            for v in p.state.heap.values():
+                for a in C.atoms_deep(v):
+                    if isinstance(a, tuple) and len(a) == 3 and a[0] == 'global' and a[1] in tabs and \
+                            a[2] in tabs[a[1]] and len(tabs[a[1]][a[2]].shape) >= 1:
+                        rows.add(tabs[a[1]][a[2]].shape[0])
+        if len(rows) != 1:
+            continue
+        num = rows.pop()
+
+        def same_member(v) -> bool:
+            a = v.single_atom() if isinstance(v, RF) else None
+            return key_of(v) == pk or (isinstance(a, tuple) and len(a) in (3, 4) and a[0] == 'call' and
+                                       a[1] in ('int', 'builtins.int') and a[2] == (pk,))
+        attrs = {fld for p in paths for (bk, fld), v in p.state.heap.items()
+                 if bk == selfk and isinstance(fld, str) and same_member(v)}
+        if not attrs:
+            continue
+        for A in sorted(attrs):
+            for member in (0, num - 1):
+                for p in paths:
+                    gl = [l for l in p.guards if C.mentions_lit(l, pk)] if hasattr(C, 'mentions_lit') else \
+                        [l for l in p.guards if l.kind == 'cmp' and any(a == pk for a in l.rf.atoms())]
+                    truth = [C.subst_lit(l, {pk: RF.const(member).key()}).const_truth() for l in gl]
+                    if any(t is None for t in truth) or not all(truth):
+                        continue            # not feasible (or not decided) for this member
+                    n += 1
+                    v = p.state.heap.get((selfk, A))
+                    got = None
+                    if v is not None:
+                        got = member if same_member(v) else (
+                            int(v.const_value()) if isinstance(v, RF) and v.const_value() is not None else None)
+                    ctx.check(got == member, rid, f'{cls.name}({member})', init.loc(),
+                              f'{cls.name}({member}) is member {member}',
+                              f'{cls.name}({member}) - a valid member of the family of {num} - is constructed with '
+                              f'{A} = {C.fmt(v) if v is not None else "?"}: row {member} of the published tables no '
+                              f'longer describes the instance built with number {member}',
+                              key=f'{rid}::{cls.name}::{A}::member-{"first" if member == 0 else "last"}')
+    ctx.floor(rid, 'boundary members of table-driven families checked', n, 4)
+
+
 def check(ctx: Ctx):
+    if C.want(ctx, 'R18.8'):
+        r18_8(ctx)
     if C.want(ctx, 'R18.7'):
         r18_7(ctx)
     if C.want(ctx, 'R18.6'):
